@@ -7,6 +7,8 @@
 #include "common/gen.hpp"
 #include "spline_monitors.hpp"
 #include <climits>
+#include <thread>
+#include <atomic>
 
 using namespace vf;
 
@@ -554,8 +556,22 @@ void runC11(Ctx &c)
                     if (A.m.init)
                     {
                         int k = r.range(0, A.m.nc);
-                        (void)A.pp->eval(r.uni(A.m.bp.front(), A.m.bp.back()), k);
-                        trace.push_back("evaluate obj" + std::to_string(a) + " k=" + std::to_string(k));
+                        // the evaluation that rebuilds the lazy state need not be an ordinary interior one: outside the span,
+                        // through a segment handle, or with a hint that is already right, no search takes place
+                        const int route = r.range(0, 5);
+                        const double ti = r.uni(A.m.bp.front(), A.m.bp.back());
+                        if (route == 0)
+                            (void)A.pp->eval(r.coin() ? A.m.bp.front() - r.uni(0, 2) : A.m.bp.back() + r.uni(0, 2), k);
+                        else if (route == 1)
+                            (void)A.pp->segEval(r.range(0, A.m.nseg() - 1), r.uni(0, 0.5), k);
+                        else if (route == 2)
+                        {
+                            int h = modelPiece(A.m, ti);
+                            (void)A.pp->evalHint(ti, &h, k);
+                        }
+                        else
+                            (void)A.pp->eval(ti, k);
+                        trace.push_back("evaluate obj" + std::to_string(a) + " k=" + std::to_string(k) + " route=" + std::to_string(route));
                     }
                     break;
                 case 2: // update, same shape
@@ -1126,6 +1142,13 @@ void runC20(Ctx &c)
                 break;
             }
             }
+            if (!gridAligned && len > 0 && r.coin(thorough ? 0.03 : 0.015))
+            {
+                // very long sequences (fine steps): sample counts around and beyond 2^16 and 2^17
+                const int kk = r.pick(std::vector<int>{65534, 65535, 65536, 65537, 70001, 131071, 131072, 131073, 150000});
+                dt = len / kk * (r.coin() ? 1.0 : (1.0 + 1e-9));
+                c.event("sequence.very_long");
+            }
             if (!gridAligned && r.coin(0.08))
             {
                 // large steps on a long interval that is a hair short of a multiple of the step
@@ -1381,6 +1404,109 @@ void runC20(Ctx &c)
         }
     }
 }
+// ------------------------------------------------------------------ distinct PPolyND objects in concurrent threads (C03)
+// Every thread constructs, evaluates (plain, hinted, batch, derivative trajectory) and destroys its own objects; results
+// under concurrency are compared bitwise with the same evaluations done alone (and the run is repeated under TSan).
+std::vector<double> ppolyObservations(const IPPoly &proto, const Model &m, const std::vector<double> &ts)
+{
+    std::vector<double> out;
+    auto pp = proto.makeCtor(m.bp, m.C, m.nc);
+    auto push = [&](const VectorXd &v)
+    {
+        for (int j = 0; j < v.size(); ++j)
+            out.push_back(v(j));
+    };
+    int hint = 0;
+    for (int k = 0; k <= m.nc; ++k)
+    {
+        for (double t : ts)
+        {
+            push(pp->eval(t, k));
+            push(pp->evalHint(t, &hint, k));
+            out.push_back((double)hint);
+        }
+        MatrixXd b = pp->evalBatch(ts, k);
+        for (int i = 0; i < b.rows(); ++i)
+            push(b.row(i).transpose());
+    }
+    if (m.nc > 1)
+    {
+        auto d = pp->derivative(1);
+        for (double t : ts)
+            push(d->eval(t, 0));
+    }
+    for (auto &sv : pp->iterate(false))
+        out.push_back(sv.start + sv.duration);
+    return out;
+}
+void runThreadsPPoly(Ctx &c)
+{
+    const bool thorough = c.a.tier == "thorough";
+    const int T = 4;
+    const uint64_t per = c.count(thorough ? 60 : 10);
+    for (auto cellp : ppolyCells())
+    {
+        const int dim = cellp.first, fo = cellp.second;
+        if (!selected(c.a.dims, dim))
+            continue;
+        std::string cell = "threads_d" + std::to_string(dim) + "ord" + std::to_string(fo);
+        if (!c.cellSelected(cell))
+            continue;
+        for (uint64_t idx = 0; idx < per; ++idx)
+        {
+            if (!c.mine(idx))
+                continue;
+            Rng r = c.beginCase(cell, idx);
+            auto proto = makePPoly(dim, fo);
+            const bool sameShape = r.coin();
+            const int n0 = r.range(1, 40), nc0 = r.range(1, fo > 0 ? fo : 12);
+            std::vector<Model> ms(T);
+            std::vector<std::vector<double>> tss(T);
+            uint64_t hh = 0;
+            for (int t = 0; t < T; ++t)
+            {
+                ms[t] = genModel(r, dim, fo, sameShape ? n0 : -1, sameShape ? nc0 : -1);
+                for (int q = 0; q < 6; ++q)
+                    tss[t].push_back(r.uni(ms[t].bp.front() - 0.5, ms[t].bp.back() + 0.5));
+                tss[t].push_back(ms[t].bp[r.range(0, ms[t].nseg())]);
+                hh = mix64(hh, hashDoubles(ms[t].C.data(), ms[t].C.size(), t));
+            }
+            c.nontrivial(hh);
+            const int reps = thorough ? 80 : 30;
+            std::vector<std::vector<double>> first(T);
+            std::vector<int> stable(T, 1);
+            std::atomic<int> ready{0};
+            std::vector<std::thread> th;
+            for (int t = 0; t < T; ++t)
+                th.emplace_back([&, t]()
+                                {
+                                    ready.fetch_add(1);
+                                    while (ready.load() < T)
+                                        std::this_thread::yield();
+                                    for (int rep = 0; rep < reps; ++rep)
+                                    {
+                                        std::vector<double> o = ppolyObservations(*proto, ms[t], tss[t]);
+                                        if (rep == 0)
+                                            first[t] = o;
+                                        else if (!bitEqualVec(o, first[t]))
+                                            stable[t] = 0;
+                                    } });
+            for (auto &x : th)
+                x.join();
+            bool allStable = true, allEqual = true;
+            for (int t = 0; t < T; ++t)
+            {
+                allStable = allStable && stable[t];
+                allEqual = allEqual && bitEqualVec(first[t], ppolyObservations(*proto, ms[t], tss[t]));
+            }
+            std::string key = pkey(dim, fo, ms[0].nc, ms[0].nseg(), "threads");
+            c.require("C03.concurrent_unrelated_objects_same_result_as_alone", allEqual, key);
+            c.require("C03.concurrent_unrelated_objects_repeatable", allStable, key);
+            c.event("thread_rounds");
+            c.event("concurrent_object_computations", (uint64_t)T * reps);
+        }
+    }
+}
 } // namespace
 
 int main(int argc, char **argv)
@@ -1404,7 +1530,9 @@ int main(int argc, char **argv)
     }
     try
     {
-        if (a.prop == "C03")
+        if (a.mode == "threads")
+            runThreadsPPoly(c);
+        else if (a.prop == "C03")
             runC03(c);
         else if (a.prop == "C11")
             runC11(c);
